@@ -26,7 +26,7 @@ def _refine_cases(draw, tier):
         dens[draw(st.integers(0, pdim - 1))] = draw(st.integers(1, hi))
     if d["kind"] == "volume" and sum(dens) > 3:
         dens = [min(x, 1) for x in dens]
-    return {"defn": d, "density": dens, "read": draw(st.booleans())}
+    return {"defn": d, "density": dens, "read": draw(st.booleans()), "binsearch": draw(st.integers(0, 3)) == 0}
 
 
 def expected_refined(p, kv, dens):
@@ -44,7 +44,9 @@ def expected_refined(p, kv, dens):
 
 def check_refine(case, ctx):
     d = case["defn"]
-    obj = build.make(d)
+    # the shape may have been created with the documented alternative span search (used whenever it is evaluated)
+    obj = build.make(d, find_span_func=helpers.find_span_binsearch) if case.get("binsearch") else build.make(d)
+    ctx.label("binary-span-search", bool(case.get("binsearch")))
     R = build.exact_from(d, obj)
     pdim = len(d["degree"])
     dens = case["density"]
